@@ -79,27 +79,8 @@ Qed.
 Lemma okx_nl m v : (exists sr, m = Some sr /\ okx p t d sr (EInt v)) -> nl m v.
 Proof. intros (sr & E & O). apply okn_nl. exists sr. split; auto. apply okx_okn; auto. Qed.
 
-(* sub_mul never lies even in the boundary case excluded from sub_mul_int_ok_partial: there it reports an
-   overflow (spuriously), which handle_result turns into an exception *)
 Lemma sub_mul_nl x y z : fin p t x -> fin p t y -> fin p t z -> nl (sub_mul_int c d x y z) (z - x * y).
-Proof.
-  intros Fx Fy Fz.
-  destruct (Z.eq_dec z 0) as [Z0|Z0]; [destruct (Z.eq_dec (x * y) (emax p t + 1)) as [B|B]|].
-  - (* boundary: the product overflows positively and z <= 0: set_neg_overflow *)
-    left. unfold sub_mul_int. fold t p.
-    destruct (mul_int_ok c Hwf Hco d x y 0 Fx Fy) as ([m r] & E & [[Cl _] Cr]). rewrite E. cbn [fst snd] in *.
-    pose proof (emin_le_emax p t Hb) as R.
-    destruct Cr as [Cr|Cr].
-    + subst r. revert Cl. unfold claim. decs. cbn. unfold fin. intros (_ & F & E' & _). unfold t, p in *. lia.
-    + destruct (Z.eqb_spec (result_overflow r) 0); [contradiction|].
-      destruct (result_overflow_cases r) as [K|[K|K]]; [contradiction| |]; rewrite K.
-      * pose proof (ovf_neg_claim _ _ _ _ _ Cl K). unfold t, p in *. lia.
-      * change (1 =? -1) with false. cbn iota. subst z. change (0 <=? 0) with true. cbn iota.
-        unfold handle. pose proof (ovf_neg_nz p t d 0) as Cn. destruct (set_neg_overflow p t d 0) as [s' r'].
-        cbn [snd] in Cn. destruct (Z.eqb_spec (result_overflow r') 0); [contradiction|reflexivity].
-  - apply okn_nl. apply sub_mul_int_ok_partial; auto. unfold sub_mul_boundary. fold t p. tauto.
-  - apply okn_nl. apply sub_mul_int_ok_partial; auto. unfold sub_mul_boundary. tauto.
-Qed.
+Proof. intros. apply okn_nl. apply sub_mul_int_ok; auto. Qed.
 
 Lemma nl_value m v w : nl m v -> handle m = Value w -> w = v /\ fin p t v.
 Proof. intros [H|[H F]] E; rewrite H in E; [discriminate|]. inversion E. subst. auto. Qed.
